@@ -33,6 +33,42 @@ PROPS = {
             "distinctness of the marked voters as *members* needs the group invariant of C16 (voters duplicate-free); positions are distinct by construction",
         ],
     },
+    "C11": {
+        "module": "GoatProofs.C11",
+        "theorems": ["Goat.C11.slash_amount", "Goat.C11.slash_le_holding"],
+        "streams": [{"name": "locking", "quick": 2500, "thorough": 40000, "seeds": 16}],
+        "assumptions": ["amounts are 256-bit EVM words; totals stay below 2^256 (the overflow panic is modelled as a failed transaction)"],
+    },
+    "C12": {
+        "module": "GoatProofs.C12",
+        "theorems": ["Goat.C12.shares_sum_le_pool", "Goat.C12.share_at_most_proportional", "Goat.C12.repeated_halving_eq",
+                     "Goat.C12.scheduled_eq", "Goat.C12.emission", "Goat.C12.income", "Goat.C12.updateRewardPool_conserves",
+                     "Goat.C12.F5_rounded_shares_exceed_pool"],
+        "streams": [{"name": "locking-rewards", "quick": 2500, "thorough": 40000, "seeds": 16},
+                    {"name": "locking", "quick": 1500, "thorough": 20000, "seeds": 8}],
+        "assumptions": ["vote infos carry non-negative powers with a positive total (CometBFT delivers the last commit of a non-empty set)"],
+    },
+    "C13": {
+        "module": "GoatProofs.C13",
+        "theorems": ["Goat.C13.comet_accept_basic", "Goat.C13.toInt64_small", "Goat.C13.F6b_power_2_63_refused"],
+        "streams": [{"name": "locking", "quick": 2500, "thorough": 40000, "seeds": 16}],
+        "assumptions": ["vote infos and evidence name validators known to the module (they were reported to CometBFT by it)"],
+    },
+    "C14": {
+        "module": "GoatProofs.C14",
+        "theorems": ["Goat.C14.non_active_not_counted", "Goat.C14.downtime_exact", "Goat.C14.evidence_tombstones", "Goat.C14.isStale_iff",
+                     "Goat.C14.stale_evidence_ignored", "Goat.C14.tombstoned_not_slashed_again", "Goat.C14.tombstone_absorbing_lock"],
+        "streams": [{"name": "locking", "quick": 2500, "thorough": 40000, "seeds": 16}],
+        "assumptions": [],
+    },
+    "C15": {
+        "module": "GoatProofs.C15",
+        "theorems": ["Goat.C15.unlock_amount_bounded", "Goat.C15.unlock_time_exact", "Goat.C15.unlock_time_lower_bound",
+                     "Goat.C15.unlock_queued_at_maturity", "Goat.C15.enqueue_files_under_time", "Goat.C15.mature_only",
+                     "Goat.C15.immature_stay", "Goat.C15.mature_leave_queue", "Goat.C15.below_threshold_exits"],
+        "streams": [{"name": "locking", "quick": 2500, "thorough": 40000, "seeds": 16}],
+        "assumptions": ["block time is non-decreasing (CometBFT)", "ExitingDuration >= UnlockDuration (Params.Validate)"],
+    },
     "C04": {
         "module": "GoatProofs.C04",
         "theorems": [
